@@ -118,6 +118,20 @@ def h_canon(E, n, edges, backend, copy, relab, fixed=False, noh=False):
 
         s1, s2 = SynGraph(g, canon), SynGraph(g3, canon)
         E.check(not (s1 == s2 and hash(s1) == hash(s2)), "exact-backend-syngraph-equal-for-isomorphic-graphs", inv)
+    # the same canonicaliser object, the same graph object, edited in place (size unchanged) in between
+    if not fixed and n >= 1:
+        c2 = GC(backend=backend)
+        c2.canonical_signature(g)
+        v0 = list(g.nodes)[0]
+        g.nodes[v0]["charge"] = 1
+        if g.number_of_edges():
+            a, b = list(g.edges)[0]
+            g[a][b]["order"] = 3
+        sig_e = c2.canonical_signature(g)
+        cg_e = c2.make_canonical_graph(g)
+        fresh = GC(backend=backend)
+        E.check(OR(sig_e != fresh.canonical_signature(g.copy()), faithful_bad(g, cg_e)),
+                "signature-is-stale-after-an-in-place-edit", dict(info, edited=v0))
     E.note(nontrivial=any(ids[v] != v for v in ids))
     E.observe((sorted(cg1.nodes), sig1 == sig2))
 
